@@ -751,6 +751,9 @@ def _emit_item(unit, g, src, it, iid, label, a, fnq, emit, canary, spec):
                 r = rscan.find_arm(src.toks, src.br, blo, bhi, pat, occ)
                 if r is not None:
                     dropped.append((r[2], r[3]))
+            for r_ in rw_applied:      # a call inside a span that a declared rewrite replaces as a whole is gone
+                for (pa, pb) in r_.get('positions', []):
+                    dropped.append((pa, pb))
             for i in range(blo, bhi - 2):
                 t = src.toks
                 if any(lo <= i < hi for lo, hi in dropped):
